@@ -27,6 +27,10 @@ type API struct {
 	Calls map[string]int
 	// FailPartitionInfo makes GetPartitionInfo fail when it returns an error.
 	FailPartitionInfo func(db, coll string) error
+	// Auto, when set, synthesizes a downstream collection the first time an unknown one is asked for.
+	Auto func(db, name string) *Coll
+	// DBOf, when set, answers GetDatabaseName (the real client searches the downstream when the source database is gone).
+	DBOf func(coll, db string) (string, error)
 }
 
 func New() *API { return &API{colls: map[string]*Coll{}, Calls: map[string]int{}} }
@@ -89,6 +93,11 @@ func (a *API) GetCollectionInfo(ctx context.Context, collectionName, databaseNam
 	defer a.mu.Unlock()
 	a.Calls["GetCollectionInfo"]++
 	c := a.colls[key(databaseName, collectionName)]
+	if c == nil && a.Auto != nil {
+		if c = a.Auto(databaseName, collectionName); c != nil {
+			a.colls[key(databaseName, collectionName)] = c
+		}
+	}
 	if c == nil {
 		return nil, fmt.Errorf("collection not found[database=%s][collection=%s]", databaseName, collectionName)
 	}
@@ -106,6 +115,11 @@ func (a *API) GetPartitionInfo(ctx context.Context, collectionName, databaseName
 		}
 	}
 	c := a.colls[key(databaseName, collectionName)]
+	if c == nil && a.Auto != nil {
+		if c = a.Auto(databaseName, collectionName); c != nil {
+			a.colls[key(databaseName, collectionName)] = c
+		}
+	}
 	if c == nil {
 		return nil, fmt.Errorf("collection not found[database=%s][collection=%s]", databaseName, collectionName)
 	}
@@ -113,6 +127,12 @@ func (a *API) GetPartitionInfo(ctx context.Context, collectionName, databaseName
 }
 
 func (a *API) GetDatabaseName(ctx context.Context, collectionName, databaseName string) (string, error) {
+	a.mu.Lock()
+	f := a.DBOf
+	a.mu.Unlock()
+	if f != nil {
+		return f(collectionName, databaseName)
+	}
 	return databaseName, nil
 }
 
